@@ -21,7 +21,7 @@ LEVEL_TEXT = ("Clouds of 10^4-10^6 particles are stepped 1-50 times by the real 
               "and two runs must be identical.")
 LEVEL_NOTE = "Restated as bounded statistics: moments and independence only (no normality test). A 6-sigma band with 1e5 particles is +-2.7 % on the variance: false alarms at the 1e-8 level per test, factor-2/unit errors far outside."
 RULE = ("case = (D, Dz, dt, dx, dy, steps, cloud size, seed). Non-trivial: D > 0 or Dz > 0 with at least 2 steps (independence across steps observable); distinct by parameters.")
-MANDATORY = ["restarted_run_step_independence_tests", "restarted_run_total_variance_tests", "records_of_a_later_configuration_without_coefficients", "e2e_version_1_configuration", "e2e_row_dependent_spacing_subgrid_off_diagonal", "coefficients_of_1e-8_or_less", "few_particle_series_tests", "particles_in_state_1", "particles_in_state_2", "horizontal_variance_tests", "vertical_variance_tests", "mean_tests", "cross_covariance_tests", "lag1_tests", "neighbour_tests", "growth_tests",
+MANDATORY = ["time_step_longer_than_a_day", "restarted_run_step_independence_tests", "restarted_run_total_variance_tests", "records_of_a_later_configuration_without_coefficients", "e2e_version_1_configuration", "e2e_row_dependent_spacing_subgrid_off_diagonal", "coefficients_of_1e-8_or_less", "few_particle_series_tests", "particles_in_state_1", "particles_in_state_2", "horizontal_variance_tests", "vertical_variance_tests", "mean_tests", "cross_covariance_tests", "lag1_tests", "neighbour_tests", "growth_tests",
              "zero_diffusion_deterministic", "anisotropic_grid", "rng_seeded_by_harness", "e2e_variance_tests", "horizontal_vertical_covariance_tests", "varying_metric_variance_tests", "vertical_advection_with_diffusion_tests"]
 ASSUMPTIONS = ["still water, uniform metric, no boundaries reached (grid and water column far larger than the cloud)"]
 TIMEOUT = {"quick": 900, "thorough": 3400}
@@ -91,7 +91,7 @@ def gen_cases(tier: str, seed: int) -> list[dict[str, Any]]:
         elif i % 5 == 2:
             Dz = 0.0
         dx = float(rng.choice([50.0, 800.0, 4000.0, 20000.0]))
-        cases.append(dict(idx=i, rngseed=int(seed * 100003 + i), D=D, Dz=Dz, dt=int(rng.choice([10, 60, 600, 3600])), dx=dx,
+        cases.append(dict(idx=i, rngseed=int(seed * 100003 + i), D=D, Dz=Dz, dt=int(rng.choice([10, 60, 600, 3600, 90000, 129600])), dx=dx,  # also time steps of more than a day
                           dy=dx * float(rng.choice([1.0, 1.0, 0.5, 2.5])), steps=int(rng.choice([1, 2, 5, 20, 50])),
                           n=int(rng.choice([10**4, 10**5, 3 * 10**5])) if tier == "quick" else int(rng.choice([10**4, 10**5, 10**6])),
                           advection=str(rng.choice(["", "EF"])), varying_metric=bool(i % 3 == 1), w=float(rng.choice([-1.0e-3, 2.0e-3])) if i % 4 == 0 else None))
@@ -329,6 +329,8 @@ def run_case(case: dict[str, Any], wd: Path) -> dict[str, Any]:
     desc = dict(D=D, Dz=Dz, dt=dt, dx=dx, dy=dy, steps=steps, n=n, rngseed=case["rngseed"])
     if case.get("tiny"):
         sit["coefficients_of_1e-8_or_less"] = 1
+    if dt > 86400 and (D > 0 or Dz > 0):
+        sit["time_step_longer_than_a_day"] = 1
     timer, state, tr = make(case["rngseed"])
     sit["rng_seeded_by_harness"] = 1
     X0, Y0, Z0 = state.X.copy(), state.Y.copy(), state.Z.copy()
